@@ -66,6 +66,7 @@ var c14Cases = []c14Case{
 	{"from-import-after-rebinding", map[string]string{"m": "tick(\"m\")\ncount := a\nfunc inc() { count = count + 1 }"}, "import m\nm.inc()\nfrom m import count\ncount", func(a, b int64) int64 { return a + 1 }, map[string]int{"m": 1}},
 	{"spawned-function-imports-an-already-imported-module", map[string]string{"m": "tick(\"m\")\nk := a\nfunc bump() { k = k + 1; return k }\nfunc get() { return k }"}, "import m\nm.bump()\nr := spawn(func() { import m as again\n return again.bump() }).wait()\nr + m.get()", func(a, b int64) int64 { return 2 * (a + 2) }, map[string]int{"m": 1}},
 	{"spawned-function-uses-a-module-imported-by-main", map[string]string{"m": "tick(\"m\")\nk := a\nfunc bump() { k = k + 1; return k }\nfunc get() { return k }"}, "import m\nt := spawn(func() { return m.bump() })\nt.wait() + m.get()", func(a, b int64) int64 { return 2 * (a + 1) }, map[string]int{"m": 1}},
+	{"module-attribute-is-the-module-level-variable-not-a-block-local", map[string]string{"m": "tick(\"m\")\nx := a\nif true { x := b\n x = x + 1 }\nfunc getx() { return x }"}, "import m\nm.x - m.getx()", func(a, b int64) int64 { return 0 }, map[string]int{"m": 1}},
 	{"import-inside-function-twice", map[string]string{"m": "tick(\"m\")\nx := a"}, "f := func() { import m\n return m.x }\nf() + f()", func(a, b int64) int64 { return 2 * a }, map[string]int{"m": 1}},
 }
 
